@@ -183,6 +183,52 @@ def h15c_pre(o0, o1, s1, s2, labels, ttl, keytag, wild, rel_signer):
             and 0 <= keytag <= 65535 and o0 != 42)
 
 
+# ---------------------------------------------------------------- H15c2 signing input of a relativized name-bearing record set
+
+def h15c2(a: int, b: int, c: int, abs2: bool, mx: bool, ttl: int) -> bool:
+    """Records holding relative names (zone loaded with relativize=True) are expanded against the origin, lower-cased and THEN ordered:
+    the order of the signed data is the canonical order of the expanded forms (one target may be a label-wise prefix of the other,
+    or absolute and outside the zone)."""
+    origin = dns.name.Name([b"ExAmple", b"Org", b""])
+    owner = dns.name.Name([b"www"])
+    t1 = dns.name.Name([bytes([a])])
+    t2 = dns.name.Name([bytes([b]), bytes([c])] + ([b""] if abs2 else []))
+    if mx:
+        rtype = dns.rdatatype.MX
+        r1 = dns.rdtypes.ANY.MX.MX(IN, rtype, 10, t1)
+        r2 = dns.rdtypes.ANY.MX.MX(IN, rtype, 10, t2)
+        pre = b"\x00\x0a"
+    else:
+        rtype = dns.rdatatype.NS
+        r1 = dns.rdtypes.ANY.NS.NS(IN, rtype, t1)
+        r2 = dns.rdtypes.ANY.NS.NS(IN, rtype, t2)
+        pre = b""
+    rds = dns.rdataset.Rdataset(IN, rtype)
+    rds.add(r1, 300)
+    rds.add(r2, 300)
+    with concrete():
+        tmpl = dns.rdata.from_text(IN, dns.rdatatype.RRSIG, "NS 8 3 3600 20300101000000 20200101000000 1 ExAmple.Org. AQID")
+    rrsig = tmpl.replace(type_covered=rtype, original_ttl=ttl)
+    got = dns.dnssec._make_rrsig_signature_data((owner, rds), rrsig, origin)
+    hit("stream")
+    prefix = (int(rtype).to_bytes(2, "big") + bytes([8, 3]) + ttl.to_bytes(4, "big")
+              + tmpl.expiration.to_bytes(4, "big") + tmpl.inception.to_bytes(4, "big") + (1).to_bytes(2, "big"))
+    want = prefix + canon_name(origin.labels)
+    oname_c = canon_name(list(owner.labels) + list(origin.labels))
+    full1 = list(t1.labels) + list(origin.labels)
+    full2 = list(t2.labels) if abs2 else list(t2.labels) + list(origin.labels)
+    recs = [pre + canon_name(full1), pre + canon_name(full2)]
+    if recs[1] < recs[0]:
+        recs = [recs[1], recs[0]]
+    for r in recs:
+        want += oname_c + int(rtype).to_bytes(2, "big") + (1).to_bytes(2, "big") + ttl.to_bytes(4, "big") + len(r).to_bytes(2, "big") + r
+    return got == want
+
+
+def h15c2_pre(a, b, c, abs2, mx, ttl):
+    return 0 <= a <= 255 and 0 <= b <= 255 and 0 <= c <= 255 and 0 <= ttl < 2**32 and mx == S("mx") and abs2 == S("abs2")
+
+
 # ---------------------------------------------------------------- H15d key tag
 
 def h15d(flags: int, protocol: int, algorithm: int, key: bytes) -> bool:
@@ -374,6 +420,11 @@ HARNESSES = [
                      "dns.name.Name.is_wild"],
             bound="TXT rrset of two records with symbolic 0-2 octet strings; owner of two symbolic one-octet labels (or wildcard) under a mixed-case zone; RRSIG labels 0..5, original TTL 32 bit, key tag 16 bit symbolic; signer absolute or relative",
             stubs=["E1", "E6"], outside="other record types in the rrset (their canonical form is H15a)"),
+    Harness("H15c2", h15c2, h15c2_pre, lambda tier: [{"mx": m, "abs2": a, "_timeout": 900, "_path_timeout": 120} for m in (False, True) for a in (False, True)],
+            kind="universal over label octets and TTL",
+            encodes=["dns.dnssec._make_rrsig_signature_data", "dns.rdata.Rdata.to_digestable", "dns.name.Name.to_digestable", "dns.rdata.Rdata._cmp"],
+            bound="NS / MX record set of two records in relative form with a mixed-case two-label origin: targets one symbolic label, and two symbolic labels (relative, or absolute outside the zone); all three octets and the original TTL symbolic",
+            stubs=["E1"], outside="more records; other name-bearing types (their canonical form is H15a)"),
     Harness("H15d", h15d, h15d_pre, h15d_shards, kind="universal",
             encodes=["dns.dnssec.key_id", "dns.rdtypes.dnskeybase.DNSKEYBase.key_id" if hasattr(dns.rdtypes.ANY.DNSKEY.DNSKEY, "key_id") else "dns.dnssec.key_id"],
             bound="flags 16 bit, protocol 8 bit symbolic; algorithm in {1, 8, 13} (thorough 6 values); key of 0,1,2,3,6 (0..7) symbolic octets",
